@@ -298,6 +298,27 @@ def make_methods(log: Log, is_async: bool) -> Dict[str, Callable[..., Any]]:
     fac['js_checked'] = js_checked
     fac['js_loose'] = js_loose
 
+    # a schema with a sub-schema that has an identifier of its own (`$id`: references inside it are relative to THAT), a
+    # reference elsewhere, and a user-supplied format check that takes its time (a lookup, in real life) and lets other threads run
+    slow_formats = _js.FormatChecker(formats=())
+
+    @slow_formats.checks('zq7-slow')
+    def _slow_format(value):
+        import time as _time
+        _time.sleep(0.002)
+        return True
+
+    @shared_validator.validate(schema={
+        'type': 'object', 'definitions': {'pos': {'type': 'integer', 'minimum': 0}},
+        'properties': {'a': {'$ref': '#/definitions/pos'},
+                       'b': {'$id': 'file:///zq7-no-such-dir/schemas/b.json', 'type': 'object', 'properties': {'t': {'type': 'string', 'format': 'zq7-slow'}}}},
+        'required': ['a']}, format_checker=slow_formats)
+    def js_ref(a, b=None):
+        log.calls.append(('js_ref', (a, b), {}))
+        return ['js_ref', a, b]
+
+    fac['js_ref'] = js_ref
+
     # a schema that says which draft it is written in: under draft-04 the number 3.0 is not an integer
     @shared_validator.validate(schema={'$schema': 'http://json-schema.org/draft-04/schema#', 'type': 'object',
                                        'properties': {'n': {'type': 'integer'}}, 'required': ['n']})
@@ -389,6 +410,21 @@ def make_methods(log: Log, is_async: bool) -> Dict[str, Callable[..., Any]]:
     import datetime as _dt
     pd_span.__annotations__ = {'d': _t.Annotated[_dt.timedelta, _pd.Field(gt=_dt.timedelta(0))]}
     fac['pd_span'] = pd_validator.validate(pd_span)
+
+    def pd_asis(a, b=0):
+        log.calls.append(('pd_asis', (a, b), {}))
+        return ['pd_asis', a, b]
+
+    # the validator in its non-coercing mode: arguments reach the method as sent, omitted ones take their defaults
+    pd_asis.__annotations__ = {'a': int, 'b': int}
+    fac['pd_asis'] = _vpd.PydanticValidator(coerce=False).validate(pd_asis)
+
+    def rpc_ping(a=0):
+        # registered under a name inside the namespace the specification reserves for extensions: a method like any other
+        log.calls.append(('rpc.ping', (a,), {}))
+        return ['rpc.ping', a]
+
+    fac['rpc.ping'] = rpc_ping
 
     def pd_kw(a, **kw):
         # variadic keywords under the pydantic validator (only used by C13's used-vs-fresh comparison)
@@ -558,7 +594,7 @@ def make_broken_view(log: Log, is_async: bool):
 
 METHOD_NAMES = ('js_checked', 'js_loose', 'slowfail', 'byid', 'wrapped', 'whoami', 'ctxp', 'slow', 'fac1', 'fac2', 'ok', 'noargs', 'echo', 'kwonly', 'rpcerr', 'typed', 'boom', 'ctxm', 'view.vm', 'typedctor', 'raiselib', 'pd_pos', '_under',
                 'ns._dotted', 'cowrapped', 'js_draft4', 'window', 'mutate', 'broken.vm', 'odd_defaults', 'tc_only',
-                'pd_strip', 'view.cm', 'view.sm', 'cnt.bump', 'pd_even', 'js_list', 'ctxm_plain', 'pd_span', 'view.note')
+                'pd_strip', 'view.cm', 'view.sm', 'cnt.bump', 'pd_even', 'js_list', 'ctxm_plain', 'pd_span', 'view.note', 'pd_asis', 'rpc.ping', 'js_ref')
 
 
 def build_registry(log: Log, coroutines: bool) -> 'pjrpc.server.MethodRegistry':
